@@ -113,17 +113,16 @@ def methods(ci: ClassInfo):
 
 
 KEEP_CLIENT = ("_request_profile", "_get_service_urls")
-_FLAT_CACHE: dict = {}
 
 
 def fmethods(p: Project, ci: ClassInfo):
     """(name, original FunctionDef, flattened FunctionDef) for every method of the client class"""
     from .flat import flat
 
-    key = (id(p), ci.name)
-    if key not in _FLAT_CACHE:
-        _FLAT_CACHE[key] = [(nm, fn, flat(p, ci.module, fn, ci, keep=KEEP_CLIENT)) for nm, fn in methods(ci)]
-    return _FLAT_CACHE[key]
+    cache = p.__dict__.setdefault("_flat_methods", {})  # per Project object (never keyed by id(): ids are reused)
+    if ci.name not in cache:
+        cache[ci.name] = [(nm, fn, flat(p, ci.module, fn, ci, keep=KEEP_CLIENT)) for nm, fn in methods(ci)]
+    return cache[ci.name]
 
 
 def fmethod(p: Project, ci: ClassInfo, name: str):
